@@ -556,7 +556,8 @@ def _run_energy(case):
         cond = np.linalg.cond(K + M / dt ** 2)
         tol = max(1e-12, 2000 * cond * 2.3e-16)
         # absolute floor: the energy of the (energy-free) rigid part of u is only known to ~eps |K| |u|^2
-        inc = np.max((np.diff(Es) - 1e-13 * E0) / np.maximum(Es[:-1], 1e-13 * E0))
+        # (round-off of the energy itself: ~ n * eps * |K| |u|^2 with the O(1) rigid part of u  ->  1e-11 E0)
+        inc = np.max((np.diff(Es) - 1e-11 * E0) / np.maximum(Es[:-1], 1e-11 * E0))
         if inc > tol:
             v.append(viol("energy_increase", f"euler_implicit dt={dt}: energy increased by {inc:.3e} (relative to the energy before the step; tol {tol:.1e})", **key))
     return {"violations": v, "fingerprint": fp(algo, dt, case["init"], case["elemType"], Es[-1] / E0), "nontrivial": True,
